@@ -38,10 +38,14 @@ def main(argv):
     except Exception as e:  # the analysed tree does not build: a broken check run, not a verdict
         print(f"ERROR: could not analyse {repo}: {e}")
         return 2
+    extra = {}
     try:
         mod.run(program, chk)
-        if tier == "thorough" and hasattr(mod, "run_thorough"):
-            mod.run_thorough(program, chk, repo)
+        if tier == "thorough":
+            import thorough
+            rc2 = thorough.run(pid, mod, program, chk, repo, extra)
+            if rc2:
+                return rc2
     except progmod.AnchorMissing as e:
         chk.anchor_missing("anchor", str(e))
     except Exception:
@@ -55,7 +59,7 @@ def main(argv):
         trusted_base=getattr(mod, "TRUSTED", []) + COMMON_TRUSTED,
         assumptions=getattr(mod, "ASSUMPTIONS", []),
         seed=seed,
-        extra=getattr(mod, "extra_coverage", lambda: None)(),
+        extra=extra or None,
     )
 
 
